@@ -75,9 +75,10 @@ theorem C03_subset : ∀ d ∈ (t4 sqrt thr inp).approved,
     ∃ d₀ ∈ inp.deltas, d₀.kind = d.kind ∧ d₀.id = d.id ∧ d₀.attr = d.attr := by
   intro d hd
   obtain ⟨e, he, hs⟩ := approved_from_afterCd sqrt inp hd
-  have he' : e ∈ combineAcc inp.deltas := by
+  obtain ⟨e₀, he', hce⟩ : ∃ e₀ ∈ combineAcc inp.deltas, canonEntry inp.deltas e₀ = e := by
     simp only [afterCd, List.mem_filter] at he
-    exact (combine_perm _).subset he.1
+    exact (mem_combine _ _).1 he.1
+  have hs : strip e₀ = strip d := by rw [← hs, ← hce]; rfl
   obtain ⟨d₀, rest, hg, rfl⟩ := combineAcc_spec _ he'
   have hmem : d₀ ∈ inp.deltas := by
     have : d₀ ∈ grp (ckey (List.foldl merge d₀ rest)) inp.deltas := by rw [hg]; simp
@@ -116,7 +117,7 @@ theorem C03_rejected_sorted :
 theorem C03_combine_keys (ds : List (Delta α)) :
     ((combine ds).map ckey).Nodup ∧ (∀ k, k ∈ (combine ds).map ckey ↔ k ∈ ds.map ckey) := by
   refine ⟨nodup_keys_combine ds, fun k => ?_⟩
-  rw [← mem_keys_combineAcc ds k]
+  rw [← mem_keys_combineAcc ds k, ← keys_combineC]
   exact ((combine_perm ds).map ckey).mem_iff
 
 /-- what the reasons report: `DELTA_NORM_HIGH ↔ scale < 0.999999`, `COOLDOWN_BLOCKED ↔` some op was
@@ -165,19 +166,33 @@ theorem C03_rank_meaning (a c : Delta α) : rankLt a c = true ↔
     |c.delta| < |a.delta| ∨ (|a.delta| = |c.delta| ∧ lexLt (ckey a) (ckey c) = true) := by
   rw [rankLt_iff]; simp [neg_lt_neg_iff]
 
+/-- over an ordered field the canonical-order sum is just the sum -/
+theorem sumSorted_eq_sum (vs : List α) : sumSorted vs = vs.sum := by
+  unfold sumSorted
+  have hp := isort_perm (Num.le (α := α)) vs
+  rw [← hp.sum_eq]
+  cases isort (Num.le (α := α)) vs with
+  | nil => simp
+  | cons v rest =>
+    have : ∀ a : α, rest.foldl Num.add a = a + rest.sum := by
+      induction rest with
+      | nil => intro a; simp
+      | cons x rest ih => intro a; rw [List.foldl_cons, ih]; simp only [num_add, List.sum_cons]; ring
+    simp [this]
+
 /-- merge = per-key sum: the merged entry of a key carries the sum of all contributions listed for
-that key, the smallest `op_idx`/`idx` (`_min_optional_int` folded in listing order), and the target
-fields of the first one listed. -/
+that key (summed in ascending order, `_sum_canonical`), the smallest `op_idx`/`idx`
+(`_min_optional_int` folded in listing order), and the target fields of the first one listed. -/
 theorem C03_combine_sum (ds : List (Delta α)) : ∀ e ∈ combine ds,
-    e.delta = ((grp (ckey e) ds).map (·.delta)).sum ∧
+    e.delta = sumSorted (contribs (ckey e) ds) ∧ e.delta = (contribs (ckey e) ds).sum ∧
     ∃ d rest, grp (ckey e) ds = d :: rest ∧ e.kind = d.kind ∧ e.id = d.id ∧ e.attr = d.attr ∧
       e.opIdx = rest.foldl (fun m x => minOpt m x.opIdx) d.opIdx ∧
       e.idx = rest.foldl (fun m x => minOpt m x.idx) d.idx := by
   intro e he
-  obtain ⟨d, rest, hg, rfl⟩ := combineAcc_spec ds ((combine_perm ds).subset he)
-  obtain ⟨h1, h2, h3, h4, h5, h6⟩ := foldl_merge_fields rest d
-  refine ⟨?_, d, rest, hg, h1, h2, h3, h5, h6⟩
-  rw [hg, h4, foldl_add_delta]; simp
+  obtain ⟨e₀, he₀, rfl⟩ := (mem_combine ds e).1 he
+  obtain ⟨d, rest, hg, rfl⟩ := combineAcc_spec ds he₀
+  obtain ⟨h1, h2, h3, _, h5, h6⟩ := foldl_merge_fields rest d
+  exact ⟨rfl, sumSorted_eq_sum _, d, rest, hg, h1, h2, h3, h5, h6⟩
 
 /-! ### the Bool monitors the driver evaluates on the REAL `T4Result` are exactly these theorems -/
 
